@@ -526,7 +526,15 @@ func init() {
 	nilErr := func(name string) {
 		reg(name, func(fr *frame, a []value) value { stubHit(name + " (contract stub)"); return iface{} })
 	}
-	nilErr("(*github.com/BurntSushi/toml.Encoder).Encode")
+	// toml.Encoder.Encode(v): v must not be a nil interface (the real encoder calls
+	// reflect.ValueOf(v).Type(), which panics on the zero Value and is not recovered)
+	reg("(*github.com/BurntSushi/toml.Encoder).Encode", func(fr *frame, a []value) value {
+		stubHit("toml.Encoder.Encode (contract stub, precondition v != nil checked)")
+		if v, ok := a[1].(iface); ok && v.t == nil {
+			panic(targetPanic{iface{fr.i.runtimeErrorString, "reflect: call of reflect.Value.Type on zero Value"}})
+		}
+		return iface{}
+	})
 	nilErr("(*gopkg.in/yaml.v3.Encoder).Encode")
 	nilErr("(*gopkg.in/yaml.v3.Encoder).Close")
 	reg("(*gopkg.in/yaml.v3.Encoder).SetIndent", func(fr *frame, a []value) value {
